@@ -714,7 +714,7 @@ class AI:
                 and a[0] in ("sym", "int", "chr", "bool") and b[0] in ("sym", "int", "chr", "bool"):
             # semantic name: the same comparison of the same unknowns is the same unknown
             res = ("sym", "(%s %s %s)" % (a[1], base, b[1]))
-        if res is None and base in ("BitAnd", "BitOr") and (a[0] == "sym" or b[0] == "sym") \
+        if res is None and base in ("BitAnd", "BitOr", "BitXor") and (a[0] == "sym" or b[0] == "sym") \
                 and a[0] in ("sym", "int") and b[0] in ("sym", "int"):
             res = ("sym", "(%s %s %s)" % (a[1], base, b[1]))
         if res is None:
@@ -856,6 +856,21 @@ class AI:
                         r = (ev[2] == 0) == path.endswith("is_ok")
                     outs.append((s2, ("bool", r)))
                 return outs
+        if path == "std::option::Option::map_or" and len(args) == 3:
+            ty = self.operand_ty(frame, term["args"][0])
+            alts = self.fork_enum(st, args[0], ty)
+            if alts is not None:
+                outs = []
+                for s2, ev in alts:
+                    if ev[2] == 0:
+                        outs.append((s2, args[1]))
+                    else:
+                        rs = self.call_value(s2, args[2], [ev[3][0]])
+                        if rs is not None and len(rs) == 1:
+                            outs.append((s2, next(iter(rs))))
+                        else:
+                            outs.append((s2, self.sym(s2, self.site(s2, ":map_or"))))
+                return outs
         if path in ("std::mem::replace",) and len(args) == 2:
             v = self.resolve(st, args[0])
             if v[0] == "ref":
@@ -869,6 +884,30 @@ class AI:
                 eq = a[1] == b[1]
                 return [(st, ("bool", eq if decl.endswith("eq") else not eq))]
         return None
+
+    def call_value(self, st, fv, args):
+        """abstractly evaluate a closure / fn value on args in a nested interpreter; -> set of deep results"""
+        fv = self.resolve(st, fv)
+        if fv[0] not in ("closure", "fn") or fv[1] not in self.cr.fns:
+            return None
+        fn = self.cr.fns[fv[1]]
+        sub = AI(self.cr, Hooks(), max_states=20000, max_depth=4)
+        cargs = list(args)
+        ext = dict(st.ext)
+        if fn["kind"] == "closure":
+            envty = M.Ty(self.cr, fn["locals"][1]) if len(fn["locals"]) > 1 else None
+            if envty is not None and envty.kind == "ref":
+                ext["NESTED_ENV"] = fv
+                cargs = [("ref", ("X", "NESTED_ENV"), ())] + cargs
+            else:
+                cargs = [fv] + cargs
+        if len(cargs) != fn["argc"]:
+            return None
+        try:
+            sub.run(fv[1], args=cargs, ext=ext)
+        except Undecided:
+            return None
+        return set(v for v, m, t in sub.returns)
 
     def deref_val(self, st, v, n=0):
         v = self.resolve(st, v)
